@@ -420,6 +420,20 @@ fn probe() {
             }
         }
     }
+    // out-of-range lgwin (clamped by SanitizeParams only AFTER max_dict_size was computed)
+    for (lgwin, q, d) in [(0i32, 5i32, 400000usize), (3, 5, 400000), (3, 2, 100000), (3, 5, 200000), (30, 5, (1 << 24) + 5), (30, 5, 70 << 20), (25, 9, (1 << 24) + 5)] {
+        let dict = gen_dict(3, d);
+        let mut inp = dict[d - 300..].to_vec(); inp.extend_from_slice(&text); inp.extend_from_slice(&dict[d / 2..d / 2 + 500]);
+        let p = base_params(q, lgwin);
+        match encode_stream(&inp, &dict, &p, 1 << 16, 1 << 16, &mut |_, _, _, _| ()) {
+            Ok((out, book)) => {
+                let dr = decode_dict(&out, &dict, inp.len() + 1000);
+                let verdict = match &dr { DResult::Ok(v) if *v == inp => "roundtrip-ok".to_string(), DResult::Ok(v) => format!("WRONG len {} first diff {}", v.len(), crate::dec::first_diff(v, &inp)), o => format!("{:?}", o).chars().take(60).collect() };
+                println!("lgwin{} q{} d{} -> {} bytes; book {:?}; {}", lgwin, q, d, out.len(), (book.input_pos, book.last_flush_pos, book.lgwin), verdict);
+            }
+            Err(e) => println!("lgwin{} q{} d{} -> {}", lgwin, q, d, e),
+        }
+    }
     for q in [2, 5, 9, 11] {
         let dict: Vec<u8> = text[..150].to_vec();
         let mut p = base_params(q, 22);
